@@ -23,7 +23,7 @@ Meta == [uncompared |-> Uncompared, uncomparedEverywhere |-> UncomparedEverywher
          derived |-> DerivedGetters, views |-> ViewNames,
          base |-> {[view |-> n, len |-> BaseView[n].len, set |-> BaseView[n].set, raw |-> BaseView[n].raw] : n \in ViewNames},
          precedenceOverlaps |-> Cardinality(PrecedenceOverlaps), portPairs |-> Cardinality(PortClasses \X PortClasses),
-         deviations |-> NamedDeviations \ {"none"}, fills |-> FreeByteFills, prefixes |-> PrefixTransforms]
+         deviations |-> NamedDeviations \ {"none"}, fills |-> FreeByteFills, prefixes |-> PrefixTransforms, classifying |-> ClassifyingFields]
 
 Tag(f, S) == {[fam |-> f, c |-> x] : x \in S}
 Vectors ==
@@ -101,5 +101,6 @@ ModelChecks ==
   /\ \A id \in PayloadIDs \ {PEther, P8023} :
         \E c \in AllocCases : ParseOutcome(c.s).id = id /\ c.status \in {"tracked", "no-ip"}             \* C16 covers every class
   /\ (Uncompared \cup DerivedGetters) \cap {<<r.v, r.g>> : r \in FieldTable} = {}
+  /\ ClassifyingFields \subseteq {<<r.v, r.g>> : r \in FieldTable}
 ASSUME Family \in {"parse", "all"} => ModelChecks
 =============================================================================
